@@ -22,6 +22,8 @@ import Gotlcp.Lemmas.CodecDtlcp
 import Gotlcp.Lemmas.CodecHello
 import Gotlcp.Lemmas.CodecHelloStrict
 import Gotlcp.Lemmas.CodecHelloCanon
+import Gotlcp.Lemmas.CodecHelloAccept
+import Gotlcp.Lemmas.CodecEmitted
 import Gotlcp.Model.CodecParams
 
 set_option linter.unusedSimpArgs false
@@ -579,5 +581,214 @@ example : (Spec.Codec.strictClientHello .tlcp
       [0, 20, 0, 0, 0, 6, 0, 4, 0, 0, 1, 0x61, 0, 10, 0, 6, 0, 4, 0, 41, 0, 23])).isSome = true := by decide
 
 end Hello
+
+/-! ## The strict decoder accepts the library's own encoding of every in-range hello
+
+(`decodeStrict (encode m) = some m`; for the other kinds this is the third conjunct of
+`C14_roundtrip_*`.)  The extensions are emitted in the order server_name, trusted_ca_keys,
+status_request, supported_groups, signature_algorithms, ALPN, client_id / status_request, ALPN,
+server_name — the order the strict decoder expects. -/
+
+section Accept
+open Gotlcp.Lemmas.CodecHello Gotlcp.Lemmas.CodecHelloAccept
+
+theorem C14_strict_accepts_encode_serverHello_tlcp (m : ServerHello) (hw : Spec.Codec.wfServerHello m = true) :
+    ∃ b, encServerHello codesT m = some b ∧ Spec.Codec.strictServerHello .tlcp b = some (zeroH, m) :=
+  accept_serverHello_tlcp codesT helloCodesT rfl m hw
+
+theorem C14_strict_accepts_encode_clientHello_tlcp (m : ClientHello) (hw : Spec.Codec.wfClientHello .tlcp m = true) :
+    ∃ b, encClientHello codesT m = some b ∧ Spec.Codec.strictClientHello .tlcp b = some (zeroH, m) :=
+  accept_clientHello_tlcp codesT helloCodesT rfl m hw
+
+theorem C14_strict_accepts_encode_serverHello_dtlcp (h : DHdr) (m : ServerHello)
+    (hw : Spec.Codec.wfServerHello m = true)
+    (hh : ∀ body, encServerHelloBody codesD m = some body → Spec.Codec.wfDHdr h body.length = true) :
+    ∃ b body, encServerHelloBody codesD m = some body ∧ Model.CodecDtlcp.encServerHello codesD h m = some b ∧
+      Spec.Codec.strictServerHello .dtlcp b = some (⟨h.seq, 0, body.length⟩, m) :=
+  accept_serverHello_dtlcp codesD helloCodesD rfl h m hw hh
+
+theorem C14_strict_accepts_encode_clientHello_dtlcp (h : DHdr) (m : ClientHello)
+    (hw : Spec.Codec.wfClientHello .dtlcp m = true)
+    (hh : ∀ body, encClientHelloBody codesD true m = some body → Spec.Codec.wfDHdr h body.length = true) :
+    ∃ b body, encClientHelloBody codesD true m = some body ∧ Model.CodecDtlcp.encClientHello codesD h m = some b ∧
+      Spec.Codec.strictClientHello .dtlcp b = some (⟨h.seq, 0, body.length⟩, m) :=
+  accept_clientHello_dtlcp codesD helloCodesD rfl h m hw hh
+
+end Accept
+
+/-! ## Every message the constructors emit decodes
+
+`Model.Emitted.emitted…` describe what makeClientHello, the server's hello / certificate /
+certificate-request construction, the key agreements, the Finished computation and the cookie
+exchange produce (constants from the regenerated facts `Emitted.paramsT/D`).  `C14_emitted_wf_*`:
+that shape lies within the standard's ranges; `C14_emitted_decodes_*`: hence the library decodes
+its own encoding of it to the same fields.  That the handshake flows call only these constructors
+is checked on messages captured from real handshakes (driver phase `captured`), not proved. -/
+
+section Emitted
+open Gotlcp.Model.Emitted Gotlcp.Lemmas.CodecEmitted Gotlcp.Lemmas.CodecHello
+
+theorem C14_emit_facts :
+    paramsT.vers = 257 ∧ paramsD.vers = 257 ∧ paramsT.randLen = 32 ∧ paramsD.randLen = 32 ∧
+    paramsT.sidLen = 32 ∧ paramsD.sidLen = 32 ∧ paramsT.suites.length = 4 ∧ paramsD.suites.length = 4 ∧
+    paramsT.compressionNone = 0 ∧ paramsD.compressionNone = 0 ∧ paramsT.sigSM2 = 0x0704 ∧ paramsD.sigSM2 = 0x0704 ∧
+    paramsT.certTypes = [1, 64] ∧ paramsD.certTypes = [1, 64] ∧ paramsT.finishedLen = 12 ∧ paramsD.finishedLen = 12 ∧
+    codesD.maxHandshake = 65536 := by decide
+
+theorem goodT : GoodParams paramsT := ⟨rfl, by decide, by decide, by decide, rfl⟩
+theorem goodD : GoodParams paramsD := ⟨rfl, by decide, by decide, by decide, rfl⟩
+
+theorem C14_emitted_wf_clientHello_tlcp (m : ClientHello) (h : emittedClientHello paramsT false m = true) :
+    Spec.Codec.wfClientHello .tlcp m = true := emitted_wf_clientHello paramsT goodT .tlcp m h
+theorem C14_emitted_wf_clientHello_dtlcp (m : ClientHello) (h : emittedClientHello paramsD true m = true) :
+    Spec.Codec.wfClientHello .dtlcp m = true := emitted_wf_clientHello paramsD goodD .dtlcp m h
+theorem C14_emitted_wf_serverHello_tlcp (m : ServerHello) (h : emittedServerHello paramsT m = true) :
+    Spec.Codec.wfServerHello m = true := emitted_wf_serverHello paramsT goodT m h
+theorem C14_emitted_wf_serverHello_dtlcp (m : ServerHello) (h : emittedServerHello paramsD m = true) :
+    Spec.Codec.wfServerHello m = true := emitted_wf_serverHello paramsD goodD m h
+theorem C14_emitted_wf_certificate (m : Certificate) (h : emittedCertificate m = true) :
+    Spec.Codec.wfCertificate m = true := emitted_wf_certificate m h
+theorem C14_emitted_wf_certificateRequest_tlcp (m : CertificateRequest) (h : emittedCertificateRequest paramsT m = true) :
+    Spec.Codec.wfCertificateRequest m = true := emitted_wf_certificateRequest paramsT goodT m h
+theorem C14_emitted_wf_certificateRequest_dtlcp (m : CertificateRequest) (h : emittedCertificateRequest paramsD m = true) :
+    Spec.Codec.wfCertificateRequest m = true := emitted_wf_certificateRequest paramsD goodD m h
+theorem C14_emitted_wf_keyExchange (m : Blob) (h : emittedKeyExchange m = true) :
+    Spec.Codec.wfBlob .clientKeyExchange m = true ∧ Spec.Codec.wfBlob .serverKeyExchange m = true :=
+  ⟨emitted_wf_keyExchange _ (Or.inl rfl) m h, emitted_wf_keyExchange _ (Or.inr rfl) m h⟩
+theorem C14_emitted_wf_certificateVerify (m : Blob) (h : emittedCertificateVerify m = true) :
+    Spec.Codec.wfBlob .certificateVerify m = true := emitted_wf_certificateVerify m h
+theorem C14_emitted_wf_finished_tlcp (m : Blob) (h : emittedFinished paramsT m = true) :
+    Spec.Codec.wfBlob .finished m = true := emitted_wf_finished paramsT goodT m h
+theorem C14_emitted_wf_finished_dtlcp (m : Blob) (h : emittedFinished paramsD m = true) :
+    Spec.Codec.wfBlob .finished m = true := emitted_wf_finished paramsD goodD m h
+theorem C14_emitted_wf_helloVerifyRequest (m : HelloVerifyRequest) (h : emittedHelloVerifyRequest paramsD m = true) :
+    Spec.Codec.wfHelloVerifyRequest m = true := emitted_wf_helloVerifyRequest paramsD m h
+
+example : emittedClientHello paramsT false ⟨(1, 1), List.replicate 32 9, [], [], [(0xe0, 0x53), (0xe0, 0x13)], [0],
+    [0x61, 0x2e, 0x62], [], false, [(0, 41)], [(7, 4)], [[0x68, 0x32]], []⟩ = true := by decide
+
+/-- TLCP: every emitted message decodes to the same fields with the same library -/
+theorem C14_emitted_decodes_tlcp :
+    (∀ m, emittedClientHello paramsT false m = true →
+      ∃ b, encClientHello codesT m = some b ∧ unmarshalClientHello codesT b = .ok m) ∧
+    (∀ m, emittedServerHello paramsT m = true →
+      ∃ b, encServerHello codesT m = some b ∧ unmarshalServerHello codesT b = .ok m) ∧
+    (∀ m, emittedCertificate m = true →
+      ∃ b, encCertificate codesT m = some b ∧ unmarshalCertificate codesT b = .ok m) ∧
+    (∀ m, emittedKeyExchange m = true →
+      ∃ b, encKeyMsg codesT.tServerKeyExchange m = some b ∧ unmarshalServerKeyExchange codesT b = .ok m) ∧
+    (∀ m, emittedCertificateRequest paramsT m = true →
+      ∃ b, encCertificateRequest codesT m = some b ∧ unmarshalCertificateRequest codesT b = .ok m) ∧
+    (∃ b, encServerHelloDone codesT = some b ∧ unmarshalServerHelloDone codesT b = .ok ()) ∧
+    (∀ m, emittedKeyExchange m = true →
+      ∃ b, encKeyMsg codesT.tClientKeyExchange m = some b ∧ unmarshalClientKeyExchange codesT b = .ok m) ∧
+    (∀ m, emittedCertificateVerify m = true →
+      ∃ b, encCertificateVerify codesT m = some b ∧ unmarshalCertificateVerify codesT b = .ok m) ∧
+    (∀ m, emittedFinished paramsT m = true →
+      ∃ b, encFinished codesT m = some b ∧ unmarshalFinished codesT b = .ok m) := by
+  refine ⟨?_, ?_, ?_, ?_, ?_, ?_, ?_, ?_, ?_⟩
+  · intro m h; exact C14_roundtrip_clientHello_tlcp m (C14_emitted_wf_clientHello_tlcp m h)
+  · intro m h; exact C14_roundtrip_serverHello_tlcp m (C14_emitted_wf_serverHello_tlcp m h)
+  · intro m h
+    obtain ⟨b, h1, h2, _⟩ := C14_roundtrip_certificate_tlcp m (C14_emitted_wf_certificate m h)
+    exact ⟨b, h1, h2⟩
+  · intro m h
+    obtain ⟨b, h1, h2, _⟩ := C14_roundtrip_serverKeyExchange_tlcp m (C14_emitted_wf_keyExchange m h).2
+    exact ⟨b, h1, h2⟩
+  · intro m h
+    obtain ⟨b, h1, h2, _⟩ := C14_roundtrip_certificateRequest_tlcp m (C14_emitted_wf_certificateRequest_tlcp m h)
+    exact ⟨b, h1, h2⟩
+  · obtain ⟨b, h1, h2, _⟩ := C14_roundtrip_serverHelloDone_tlcp
+    exact ⟨b, h1, h2⟩
+  · intro m h
+    obtain ⟨b, h1, h2, _⟩ := C14_roundtrip_clientKeyExchange_tlcp m (C14_emitted_wf_keyExchange m h).1
+    exact ⟨b, h1, h2⟩
+  · intro m h
+    obtain ⟨b, h1, h2, _⟩ := C14_roundtrip_certificateVerify_tlcp m (C14_emitted_wf_certificateVerify m h)
+    exact ⟨b, h1, h2⟩
+  · intro m h
+    obtain ⟨b, h1, h2, _⟩ := C14_roundtrip_finished_tlcp m (C14_emitted_wf_finished_tlcp m h)
+    exact ⟨b, h1, h2⟩
+
+section EmittedDtlcp
+open Gotlcp.Model.CodecDtlcp Gotlcp.Lemmas.CodecDtlcp
+
+/-- DTLCP: every emitted message (header fields as the constructors leave them) decodes to the same
+body fields; the decoded header reads `⟨seq, 0, body length⟩` -/
+theorem C14_emitted_decodes_dtlcp (h : DHdr) (he : emittedDHdr h = true) :
+    (∀ m, emittedClientHello paramsD true m = true →
+      ∃ b n, Model.CodecDtlcp.encClientHello codesD h m = some b ∧
+        Model.CodecDtlcp.decClientHello codesD b = .ok (⟨h.seq, 0, n⟩, m)) ∧
+    (∀ m, emittedHelloVerifyRequest paramsD m = true →
+      ∃ b n, encHelloVerifyRequest codesD h m = some b ∧ decHelloVerifyRequest codesD b = .ok (⟨h.seq, 0, n⟩, m)) ∧
+    (∀ m, emittedServerHello paramsD m = true →
+      ∃ b n, Model.CodecDtlcp.encServerHello codesD h m = some b ∧
+        Model.CodecDtlcp.decServerHello codesD b = .ok (⟨h.seq, 0, n⟩, m)) ∧
+    (∀ m, emittedCertificate m = true →
+      ∃ b n, Model.CodecDtlcp.encCertificate codesD h m = some b ∧
+        Model.CodecDtlcp.decCertificate codesD b = .ok (⟨h.seq, 0, n⟩, m)) ∧
+    (∀ m, emittedKeyExchange m = true →
+      ∃ b n, encKeyMsg codesD.tServerKeyExchange h m = some b ∧ decServerKeyExchange codesD b = .ok (⟨h.seq, 0, n⟩, m)) ∧
+    (∀ m, emittedCertificateRequest paramsD m = true →
+      ∃ b n, Model.CodecDtlcp.encCertificateRequest codesD h m = some b ∧
+        Model.CodecDtlcp.decCertificateRequest codesD b = .ok (⟨h.seq, 0, n⟩, m)) ∧
+    (∃ b n, encServerHelloDone codesD h = some b ∧ decServerHelloDone codesD b = .ok (⟨h.seq, 0, n⟩, ())) ∧
+    (∀ m, emittedKeyExchange m = true →
+      ∃ b n, encKeyMsg codesD.tClientKeyExchange h m = some b ∧ decClientKeyExchange codesD b = .ok (⟨h.seq, 0, n⟩, m)) ∧
+    (∀ m, emittedCertificateVerify m = true →
+      ∃ b n, encCertificateVerify codesD h m = some b ∧ decCertificateVerify codesD b = .ok (⟨h.seq, 0, n⟩, m)) ∧
+    (∀ m, emittedFinished paramsD m = true →
+      ∃ b n, encFinished codesD h m = some b ∧ decFinished codesD b = .ok (⟨h.seq, 0, n⟩, m)) := by
+  refine ⟨?_, ?_, ?_, ?_, ?_, ?_, ?_, ?_, ?_, ?_⟩
+  · intro m hm
+    have hw := C14_emitted_wf_clientHello_dtlcp m hm
+    obtain ⟨body', e1, _, e3⟩ := rt_clientHelloBody codesD helloCodesD (by decide) (by decide) true m (chwf_of hw)
+    obtain ⟨b, body, _, h2, h3⟩ := C14_roundtrip_clientHello_dtlcp h m hw
+      (fun body hb => wfDHdr_of_emitted he (by rw [e1] at hb; injection hb with hb; rw [← hb]; exact e3))
+    exact ⟨b, _, h2, h3⟩
+  · intro m hm
+    have hw := C14_emitted_wf_helloVerifyRequest m hm
+    have hl : m.cookie.length < 256 := by simpa [Spec.Codec.wfHelloVerifyRequest] using hw
+    obtain ⟨b, h1, h2, _⟩ := C14_roundtrip_helloVerifyRequest_dtlcp h m hw (wfDHdr_of_emitted he (by omega))
+    exact ⟨b, _, h1, h2⟩
+  · intro m hm
+    have hw := C14_emitted_wf_serverHello_dtlcp m hm
+    obtain ⟨body', e1, _, e3⟩ := rt_serverHelloBody codesD helloCodesD m (shwf_of hw)
+    obtain ⟨b, body, _, h2, h3⟩ := C14_roundtrip_serverHello_dtlcp h m hw
+      (fun body hb => wfDHdr_of_emitted he (by rw [e1] at hb; injection hb with hb; rw [← hb]; exact e3))
+    exact ⟨b, _, h2, h3⟩
+  · intro m hm
+    have hw := C14_emitted_wf_certificate m hm
+    obtain ⟨b, h1, h2, _⟩ := C14_roundtrip_certificate_dtlcp h m hw
+      (wfDHdr_of_emitted he (wfCertificate_parts hw).2.2)
+    exact ⟨b, _, h1, h2⟩
+  · intro m hm
+    have hl : m.data.length < 16777216 := by simp only [emittedKeyExchange, decide_eq_true_eq] at hm; exact hm.2
+    obtain ⟨b, h1, h2, _⟩ := C14_roundtrip_serverKeyExchange_dtlcp h m (wfDHdr_of_emitted he hl)
+    exact ⟨b, _, h1, h2⟩
+  · intro m hm
+    have hw := C14_emitted_wf_certificateRequest_dtlcp m hm
+    obtain ⟨b, h1, h2, _⟩ := C14_roundtrip_certificateRequest_dtlcp h m hw
+      (wfDHdr_of_emitted he (encCertReqBody_lt hw))
+    exact ⟨b, _, h1, h2⟩
+  · obtain ⟨b, h1, h2, _⟩ := C14_roundtrip_serverHelloDone_dtlcp h
+    exact ⟨b, _, h1, h2⟩
+  · intro m hm
+    have hl : m.data.length < 16777216 := by simp only [emittedKeyExchange, decide_eq_true_eq] at hm; exact hm.2
+    obtain ⟨b, h1, h2, _⟩ := C14_roundtrip_clientKeyExchange_dtlcp h m (wfDHdr_of_emitted he hl)
+    exact ⟨b, _, h1, h2⟩
+  · intro m hm
+    have hw := C14_emitted_wf_certificateVerify m hm
+    have hl : m.data.length < 65536 := by simpa [Spec.Codec.wfBlob] using hw
+    obtain ⟨b, h1, h2, _⟩ := C14_roundtrip_certificateVerify_dtlcp h m hw (wfDHdr_of_emitted he (by omega))
+    exact ⟨b, _, h1, h2⟩
+  · intro m hm
+    have hw := C14_emitted_wf_finished_dtlcp m hm
+    have hl : m.data.length = 12 := by simpa [Spec.Codec.wfBlob] using hw
+    obtain ⟨b, h1, h2, _⟩ := C14_roundtrip_finished_dtlcp h m hw (wfDHdr_of_emitted he (by omega))
+    exact ⟨b, _, h1, h2⟩
+
+end EmittedDtlcp
+end Emitted
 
 end Gotlcp.Props.C14
